@@ -110,3 +110,60 @@ def signature_of(expr_list: List[ast.AST]) -> List[str]:
                     hit = a
         out.append(hit or "?")
     return out
+
+
+
+# -- independence from local variable names --------------------------------------------------------------------------
+CATS = {"states", "der_states", "alg_states", "inputs", "parameters", "constants", "string_parameters", "string_constants"}
+
+
+def api_roles(fn) -> Dict[str, str]:
+    """local name -> canonical role name in save_model / load_model / _compile_model / transfer_model, discovered from what the
+    local is bound to: the pickled dictionary (-> db), the model object being built or compiled (-> model), the category list
+    zipped with the metadata function's outputs (-> variables_with_metadata), the veccat of the parameter symbols
+    (-> parameter_vector), the two metadata tables (-> metadata / independent_metadata), the name->Variable map
+    (-> variable_dict), the cache file path (-> db_file) and its handle (-> f)."""
+    roles: Dict[str, str] = {}
+    pv = None
+    for n in ast.walk(fn):
+        if isinstance(n, ast.Assign) and len(n.targets) == 1 and isinstance(n.targets[0], ast.Name):
+            t, v = n.targets[0].id, n.value
+            cn = call_name(v) or ""
+            if cn in ("pickle.load", "pickle.loads"):
+                roles.setdefault(t, "db")
+            elif cn in ("CachedModel", "Model") or cn.endswith(".generate") or cn in ("_compile_model", "load_model", "generator.generate"):
+                roles.setdefault(t, "model")
+            elif isinstance(v, ast.List) and len(v.elts) >= 3 and all(isinstance(e, ast.Constant) and e.value in CATS for e in v.elts):
+                roles.setdefault(t, "variables_with_metadata")
+            elif cn in ("ca.veccat", "ca.vertcat") and "parameters" in norm(v) and ".symbol" in norm(v):
+                roles.setdefault(t, "parameter_vector")
+                pv = t
+            elif isinstance(v, ast.BinOp) and ".pymoca_cache" in norm(v) or (cn == "os.path.join" and ".pymoca_cache" in norm(v)):
+                roles.setdefault(t, "db_file")
+        if isinstance(n, ast.Call) and (call_name(n) or "") == "pickle.dump" and n.args and isinstance(n.args[0], ast.Name):
+            roles.setdefault(n.args[0].id, "db")
+            if len(n.args) > 1 and isinstance(n.args[1], ast.Name):
+                roles.setdefault(n.args[1].id, "f")
+        if isinstance(n, ast.Call) and (call_name(n) or "") in ("pickle.load",) and n.args and isinstance(n.args[0], ast.Name):
+            roles.setdefault(n.args[0].id, "f")
+    for n in ast.walk(fn):
+        if isinstance(n, ast.Assign) and len(n.targets) == 1 and isinstance(n.targets[0], ast.Name) and isinstance(n.value, ast.Call) \
+                and call_name(n.value) == "dict" and any(isinstance(c, ast.Call) and (call_name(c) or "").endswith("variable_metadata_function") for c in ast.walk(n.value)):
+            direct = any(isinstance(c, ast.Call) and (call_name(c) or "").endswith("variable_metadata_function") and c.args and isinstance(c.args[0], ast.Name)
+                         and c.args[0].id == pv for c in ast.walk(n.value))
+            roles.setdefault(n.targets[0].id, "metadata" if direct else "independent_metadata")
+        if isinstance(n, ast.Assign) and isinstance(n.targets[0], ast.Subscript) and isinstance(n.targets[0].value, ast.Name) \
+                and norm(n.targets[0].slice).endswith(".symbol.name()") and isinstance(n.value, ast.Name):
+            roles.setdefault(n.targets[0].value.id, "variable_dict")
+    params = {a.arg for a in fn.args.args + fn.args.kwonlyargs}
+    return {k: v for k, v in roles.items() if k != v and k not in params}
+
+
+def api_fn(ctx: Context, name: str, rule: str):
+    """function `name` of casadi/api.py with its role-carrying locals renamed to canonical names (cached per context)"""
+    from ..pyutil import renamed_copy
+    key = "api_fn:" + name
+    if key not in ctx.cache:
+        fn = ctx.func(API, name, rule)
+        ctx.cache[key] = renamed_copy(fn, api_roles(fn))
+    return ctx.cache[key]
